@@ -79,8 +79,12 @@ def store_bases(nodes):
     return out
 
 
-MUTATING_METHODS = {'append', 'extend', 'update', 'pop', 'put', 'sort', 'clear', 'remove', 'insert', 'setdefault',
-                    'eliminate_zeros', 'sort_indices', 'fill'}
+# methods of builtin containers / arrays known NOT to mutate their receiver; a call of any other method on a list,
+# dict, set or array inside a loop body counts as a write to that object (it is havoced by the loop cut)
+PURE_METHODS = {'get', 'keys', 'items', 'values', 'copy', 'index', 'count', 'lower', 'upper', 'strip', 'split', 'join',
+                'startswith', 'endswith', 'sum', 'min', 'max', 'astype', 'tolist', 'ravel', 'reshape', 'view', 'any',
+                'all', 'issubset', 'getformat', 'tocsr', 'tocsc', 'count_nonzero', 'format', 'replace', 'encode',
+                'decode', 'isoformat'}
 
 
 class ArityError(Exception):
@@ -177,6 +181,26 @@ class Exec(Engine):
                 if False else [Result(st, VTuple([], True))]
         return self.ev_Tuple(e, st)
 
+    def ev_JoinedStr(self, e, st):
+        """f-string: opaque, with its literal prefix kept"""
+        prefix = ''
+        for v in e.values:
+            if isinstance(v, ast.Constant) and isinstance(v.value, str):
+                prefix += v.value
+            else:
+                break
+        exprs = [v.value for v in e.values if isinstance(v, ast.FormattedValue)]
+        acc, excs = self.ev_list(exprs, st)
+        out = list(excs)
+        for s, _ in acc:
+            out.append(Result(s, VStr(smt.concat_s(smt.str_lit(prefix), fresh('fstr', Str))) if prefix
+                              else VStr(fresh('fstr', Str))))
+        return out
+
+    def ev_Set(self, e, st):
+        acc, excs = self.ev_list(e.elts, st)
+        return [Result(s, VTuple(vals)) for s, vals in acc] + excs
+
     def ev_Lambda(self, e, st):
         return [Result(st, VFn('closure', node=e, env=dict(st.env), name='<lambda>@L%d' % e.lineno))]
 
@@ -259,7 +283,7 @@ class Exec(Engine):
             if len(e.ops) == 1 and hasattr(self.world, 'compare_objects'):
                 r = self.world.compare_objects(self, s, e.ops[0], vals[0], vals[1])
                 if r is not None:
-                    out.append(r)
+                    out.extend(r if isinstance(r, list) else [r])
                     continue
             ts = []
             for k, op in enumerate(e.ops):
@@ -312,6 +336,10 @@ class Exec(Engine):
 
     def index_read(self, st, base, idx, node):
         line = getattr(node, 'lineno', 0)
+        if hasattr(base, 'sv_index'):
+            return base.sv_index(self, st, idx, node)
+        if hasattr(idx, 'sv_as_key') and base.kind == 'ref' and isinstance(st.node(base), Dict):
+            return idx.sv_as_key(self, st, base, node)
         if base.kind == 'tuple':
             t = z3.simplify(to_int(idx)) if idx.kind in ('int', 'bool') else None
             if t is None:
@@ -899,6 +927,13 @@ class Exec(Engine):
                         else:
                             nxt.append(r2.st)
                 states = nxt
+            hooks = (self.cur.extra.get('after_assign') or {}) if self.cur is not None else {}
+            names = [t.id for t in s.targets if isinstance(t, ast.Name)]
+            for x in states:
+                for nm in names:
+                    for lem in hooks.get(nm, []):
+                        # ghost: a lemma about the value just assigned (proved here, then available)
+                        self.prove_lemma(self.cur, x, lem)
             out.extend(Result(x) for x in states)
         return out
 
@@ -918,6 +953,23 @@ class Exec(Engine):
             st.env[target.id] = val
             return [Result(st)]
         if isinstance(target, (ast.Tuple, ast.List)):
+            if hasattr(val, 'sv_unpack'):
+                out = []
+                for s2, vals, exc in val.sv_unpack(self, st, len(target.elts)):
+                    if exc is not None:
+                        out.append(exc)
+                        continue
+                    states = [s2]
+                    for t, v in zip(target.elts, vals):
+                        nxt = []
+                        for s3 in states:
+                            for r in self.assign(t, v, s3):
+                                (out if r.flow == 'raise' else nxt).append(r if r.flow == 'raise' else r.st)
+                        states = nxt
+                    out.extend(Result(x) for x in states)
+                return out
+            if val.kind == 'none':
+                return [self.exc(st, 'TypeError')]      # cannot unpack None
             if val.kind != 'tuple':
                 vals = self.world.unpack(self, st, val, len(target.elts))
                 if vals is None:
@@ -1136,14 +1188,14 @@ class Exec(Engine):
                     refs[v.ref.nid] = v.ref
             else:
                 f = x.func
-                if isinstance(f, ast.Attribute) and f.attr in MUTATING_METHODS:
+                if isinstance(f, ast.Attribute) and f.attr not in PURE_METHODS:
                     try:
                         v = self.sev(f.value, st)
                     except EngineError:
-                        continue
-                    if v.kind == 'ref':
+                        v = None
+                    if v is not None and v.kind == 'ref' and not isinstance(st.node(v), Obj):
                         refs[v.nid] = v
-                    elif v.kind == 'inner':
+                    elif v is not None and v.kind == 'inner':
                         refs[v.ref.nid] = v.ref
                 for r in self.world.call_writes(self, st, x):
                     refs[r.nid] = r
@@ -1162,6 +1214,8 @@ class Exec(Engine):
 
     def iter_spec(self, st, itv, s):
         """(lo, hi, element(st, k) -> SV) for the iterable"""
+        if hasattr(itv, 'sv_iter'):
+            return itv.sv_iter(self, st, s)
         if itv.kind == 'range':
             return itv.lo, itv.hi, (lambda st, k: VInt(k))
         if itv.kind == 'ref':
@@ -1214,6 +1268,12 @@ class Exec(Engine):
         is_for = isinstance(s, ast.For)
         line = s.lineno
         tag = 'loop%d' % ordinal
+        if lc.get('ghost') or lc.get('lemmas'):
+            # ghost functions / lemmas introduced at this loop's entry (they may speak about locals defined by then)
+            st = st.copy()
+            self.declare_ghost_dict(lc.get('ghost', {}), st, tag)
+            for lem in lc.get('lemmas', []):
+                self.prove_lemma(self.cur, st, lem)
         invs = lc.get('invariant', [])
         ivar = '__i%d' % ordinal
         idx_name = lc.get('index', ivar)
@@ -1314,6 +1374,8 @@ class Exec(Engine):
             kend = z3.If(hi > lo, hi, lo)
             for t in inv_terms(ex, kend):
                 ex.assume(t)
+            for lem in lc.get('lemmas_after', []):
+                self.prove_lemma(self.cur, ex, lem)
             # python leaves the loop variable at its last value; the verified code never
             # relies on it, so it is left unconstrained (havoced above)
             if self.feasible(ex):
@@ -1387,18 +1449,19 @@ class Exec(Engine):
     # ghosts & lemmas
     # ------------------------------------------------------------------
     def declare_ghosts(self, c, st):
-        """declare the contract's ghost functions once per (contract, state) - the
-        definitions are evaluated in `st` (parameter values at entry)"""
-        key = (c.key, id(st.env.get('__ghostkey__', None)))
-        for name, g in c.ghost.items():
+        """declare the contract's ghost functions - the definitions are evaluated in `st` (parameter values at entry)"""
+        self.declare_ghost_dict(c.ghost, st, c.qualname.replace('.', '_'))
+
+    def declare_ghost_dict(self, ghost, st, tag):
+        for name, g in ghost.items():
             argk = g.get('args', ['int'])
             retk = g.get('ret', 'int')
             if g.get('shared') and name in self.ghosts:
                 continue        # module-level ghost: one symbol for caller and callees
-            inst = '%s!%s!%d' % (name, c.qualname.replace('.', '_'), next(_gc))
+            inst = '%s!%s!%d' % (name, tag, next(_gc))
             fn = z3.Function(inst, *([self.sort_of_kind(k) for k in argk] + [self.sort_of_kind(retk)]))
             self.ghosts[name] = (fn, argk, retk)
-        for name, g in c.ghost.items():
+        for name, g in ghost.items():
             for ax in g.get('axioms', []):
                 st.assume(self.sbool(ax, st))
 
@@ -1461,8 +1524,9 @@ class Exec(Engine):
         results = self.exec_block(fnode.body, st.copy())
         self.stats['paths'] += len(results)
         if not any(r.flow in ('normal', 'return') for r in results) and not c.extra.get('never_returns'):
-            raise EngineError('%s: no normal exit is reachable (an assumed callee contract is infeasible here, or the '
-                              'precondition is contradictory)' % c.key)
+            # every path to a normal exit is infeasible under the contract's invariants / callee contracts: reported
+            # as an undischarged obligation (prove.py treats it as `unknown`), together with whatever else failed
+            self.oblige(st, 'reachability/some-normal-exit', z3.BoolVal(False), fnode.lineno)
         for r in results:
             if c.kind == 'contextmanager':
                 self.check_contextmanager_exit(c, r, fnode, entry)
